@@ -157,25 +157,47 @@ func ruleKeyWidth(c *Ctx, p *core.Program) {
 		}
 		keyBits[v] = map[string]int{"KeyUInt8": 8, "KeyUInt16": 16, "KeyUInt32": 32, "KeyUInt64": 64}[n]
 	}
-	// stores to c.key of a constant, each under a chain of `n < K` tests
+	// selection points: a constant key width stored to c.key, or returned by a helper that Prepare calls
 	nBr := 0
-	for _, b := range prep.Blocks {
-		for _, in := range b.Instrs {
-			s, ok := in.(*ssa.Store)
-			if !ok {
+	type selPoint struct {
+		fn  *ssa.Function
+		at  ssa.Instruction
+		val ssa.Value
+	}
+	var sels []selPoint
+	for fn := range core.StaticReach(prep, 1) {
+		if pkgOf(fn) == nil || pkgOf(fn).Path() != core.PkgProto {
+			continue
+		}
+		for _, b := range fn.Blocks {
+			for _, in := range b.Instrs {
+				switch x := in.(type) {
+				case *ssa.Store:
+					if fa, ok := x.Addr.(*ssa.FieldAddr); ok && fieldNameOnly(fa.X.Type(), fa.Field) == "key" {
+						if _, isConst := core.ConstInt(x.Val); isConst {
+							sels = append(sels, selPoint{fn, in, x.Val})
+						}
+					}
+				case *ssa.Return:
+					if len(x.Results) == 1 && core.IsNamed(x.Results[0].Type(), core.PkgProto, "CardinalityKey") {
+						if _, isConst := core.ConstInt(x.Results[0]); isConst {
+							sels = append(sels, selPoint{fn, in, x.Results[0]})
+						}
+					}
+				}
+			}
+		}
+	}
+	for _, sp := range sels {
+		{
+			b := sp.at.Block()
+			kv, _ := core.ConstInt(sp.val)
+			bits, known := keyBits[kv]
+			if !known {
 				continue
 			}
-			fa, ok := s.Addr.(*ssa.FieldAddr)
-			if !ok || fieldNameOnly(fa.X.Type(), fa.Field) != "key" {
-				continue
-			}
-			kv, ok := core.ConstInt(s.Val)
-			if !ok {
-				c.R.Unk(rule, "Prepare/key-store", cfg, p.Pos(s.Pos()), "key width is not chosen from a constant")
-				continue
-			}
-			bits := keyBits[kv]
 			nBr++
+			s := sp.at
 			// the guarding comparison: the If in the single predecessor chain whose true edge leads here
 			if len(b.Preds) != 1 {
 				c.R.Unk(rule, sprintf("Prepare/width%d", bits), cfg, p.Pos(s.Pos()), "branch has several predecessors")
